@@ -64,7 +64,7 @@ def gen_session(rnd, root, tier, allow_threads=True):
     else:
         go = "infinite"
     return {"options": o, "go": go, "kind": kind, "use_hist": rnd.random() < 0.5,
-            "net": rnd.choice(NETS), "searchmoves": rnd.random() < 0.25, "stop_after": rnd.choice([0.0, 0.01, 0.05, 0.15])}
+            "net": rnd.choice(NETS), "searchmoves": rnd.random() < (0.8 if root.get("cat") == "promo" else 0.25), "stop_after": rnd.choice([0.0, 0.01, 0.05, 0.15])}
 
 
 def run_session(bdir, root, s, rnd_seed, timeout=90, extra_env=None):
@@ -104,6 +104,10 @@ def run_session(bdir, root, s, rnd_seed, timeout=90, extra_env=None):
             if cand:
                 rnd.shuffle(cand)
                 smoves = cand[:rnd.randint(1, len(cand))]
+                promos = [m for m in cand if len(m) == 5]
+                if promos:      # a partial set of the four promotions of one pawn move
+                    base = rnd.choice(promos)[:4]
+                    smoves = [m for m in smoves if m[:4] != base] + [base + c for c in rnd.sample("qrbn", rnd.randint(1, 3))]
         go = "go " + s["go"] + ((" searchmoves " + " ".join(smoves)) if smoves else "")
         ev.append({"e": "Root", "fen": root["fen"], "start": sf, "hist": uci.mv_list(hist, sf["wtm"]),
                    "searchmoves": [uci.uci_to_mv(m, wtm_root) for m in smoves],
